@@ -996,7 +996,7 @@ fn main() {
     drop(shared);
     if timing { eprintln!("corpus done {:?}", t0.elapsed()); }
     let mut rng = Rng::new(args.seed);
-    let (n_scalar, n_list, n_eval, n_worlds, ops_per_world) = if args.thorough { (20000, 8000, 30000, 120, 24) } else { (3000, 1500, 5000, 5, 16) };
+    let (n_scalar, n_list, n_eval, n_worlds, ops_per_world) = if args.thorough { (20000, 8000, 30000, 120, 24) } else { (3000, 1500, 5000, 12, 16) };
     for _ in 0..n_scalar { let v = gen_scalar(&mut rng); run_scalar(&v, &mut drv, &mut sum); }
     for _ in 0..n_list {
         let v = if rng.chance(1, 20) { None } else if rng.chance(1, 6) { gen_scalar(&mut rng) } else { Some(gen_list_raw(&mut rng, WORDS)) };
